@@ -1393,9 +1393,14 @@ impl Relation {
                     vec![SyntaxNode::new_root_mut(builder.finish()).into()],
                 );
             } else {
-                let name_node = self.0.children_with_tokens().find(|n| n.kind() == IDENT);
-                let idx = if let Some(name_node) = name_node {
-                    name_node.index() + 1
+                // the version follows the name and its architecture qualifier, if any
+                let anchor = self
+                    .0
+                    .children_with_tokens()
+                    .find(|n| n.kind() == ARCHQUAL)
+                    .or_else(|| self.0.children_with_tokens().find(|n| n.kind() == IDENT));
+                let idx = if let Some(anchor) = anchor {
+                    anchor.index() + 1
                 } else {
                     0
                 };
@@ -1407,11 +1412,11 @@ impl Relation {
                     self.0.green().splice_children(idx..idx, new_children),
                 );
                 if let Some(parent) = self.0.parent() {
-                    parent
-                        .splice_children(self.0.index()..self.0.index() + 1, vec![new_root.into()]);
+                    let index = self.0.index();
+                    parent.splice_children(index..index + 1, vec![new_root.into()]);
                     self.0 = parent
                         .children_with_tokens()
-                        .nth(self.0.index())
+                        .nth(index)
                         .unwrap()
                         .clone()
                         .into_node()
